@@ -662,6 +662,91 @@ func randOpaque(r *rand.Rand) M {
 	return M{"kind": "opaque", "hdrs": trace.BB(hdrs), "offers": trace.BB(offers), "dflt": trace.B([]string{"", "d/d"}[r.Intn(2)])}
 }
 
+// ---- (e) long headers: 33 .. 130 ranges on one line or spread over several lines, the decisive range late --------------------
+
+func genLong(c *drv.Ctx, thorough bool) {
+	lengths := []int{33, 34, 40, 64, 100}
+	if thorough {
+		lengths = append(lengths, 32, 65, 130)
+	}
+	n := 0
+	offersCT := [][]Offer{{{T: "a", S: "x"}, {T: "a", S: "y"}}, {{T: "a", S: "y"}, {T: "a", S: "x"}}, {{T: "b", S: "z"}}}
+	for _, L := range lengths {
+		for layout := 0; layout < 4; layout++ { // one line / two lines / lines of 8 / one range per line
+			for variant := 0; variant < 5; variant++ {
+				var flat []Range
+				for i := 0; i < L-1; i++ {
+					// ranges that admit none of the offers, with assorted weights
+					r := rng("f", "t"+string(rune('a'+i%26))+string(rune('a'+(i/26)%26)))
+					switch i % 4 {
+					case 1:
+						r = withQ(r, q(0, 5))
+					case 2:
+						r = withQ(r, q(0, 9, 9))
+					}
+					flat = append(flat, r)
+				}
+				late := rng("a", "y") // the only / best acceptable range, last
+				switch variant {
+				case 1: // an early catch-all with a small weight: the late exact range must still win
+					flat[0] = withQ(rng("*", "*"), q(0, 1))
+				case 2: // an early exact range for the other offer with a lower weight
+					flat[1] = withQ(rng("a", "x"), q(0, 3))
+					late = withQ(late, q(0, 8))
+				case 3: // the late range forbids: q=0 ... and an early type range admits with a small weight
+					flat[2] = withQ(rng("a", "*"), q(0, 2))
+					late = withQ(rng("a", "x"), q(0))
+				case 4: // decisive range in the middle of the tail (position 33 of L)
+					if L > 34 {
+						flat[32], late = late, flat[32]
+					}
+				}
+				flat = append(flat, late)
+				var lines [][]Range
+				switch layout {
+				case 0:
+					lines = [][]Range{flat}
+				case 1:
+					lines = [][]Range{flat[:L/2], flat[L/2:]}
+				case 2:
+					for i := 0; i < L; i += 8 {
+						j := i + 8
+						if j > L {
+							j = L
+						}
+						lines = append(lines, flat[i:j])
+					}
+				default:
+					for i := range flat {
+						lines = append(lines, flat[i:i+1])
+					}
+				}
+				c.Case(shapeNo(ctCase(lines, offersCT, []string{"", "d/d"}, n%2 == 0, Offer{T: "d", S: "d"}), n))
+				n++
+			}
+			// codings: the offered coding is named last
+			var enc []Range
+			for i := 0; i < L-1; i++ {
+				r := rng("c"+string(rune('a'+i%26))+string(rune('a'+(i/26)%26)), "")
+				if i%3 == 1 {
+					r = withQ(r, q(0, 5))
+				}
+				enc = append(enc, r)
+			}
+			enc = append(enc, rng("gzip", ""))
+			lines := [][]Range{enc}
+			if layout == 1 {
+				lines = [][]Range{enc[:L/2], enc[L/2:]}
+			} else if layout >= 2 {
+				lines = [][]Range{enc[:10], enc[10:31], enc[31:]}
+			}
+			c.Case(encCase(lines, [][]string{{"gzip", "br"}, {"br", "gzip"}, {"br"}}))
+			n++
+		}
+	}
+	c.Extra["long_header_cases"] = n
+}
+
 // ---- all --------------------------------------------------------------------------------
 
 func generate(c *drv.Ctx) {
@@ -670,6 +755,7 @@ func generate(c *drv.Ctx) {
 	genExhaustiveEnc(c, thorough)
 	genSyntax(c, thorough)
 	genQuoted(c)
+	genLong(c, thorough)
 	nCT, nEnc, nOpaque := 6000, 1500, 6000
 	if thorough {
 		nCT, nEnc, nOpaque = 60000, 10000, 60000
